@@ -284,6 +284,13 @@ class P:
                 while s.peek()[1] in ('nuw', 'nsw', 'exact'): s.next()
                 s.expect('('); t1 = s.ty(); a = s.value(t1); s.expect(','); t2 = s.ty(); b = s.value(t2); s.expect(')')
                 return Const('bin', t1, (v, a, b))
+            if v == 'icmp':
+                pred = s.next()[1]
+                s.expect('('); t1 = s.ty(); a = s.value(t1); s.expect(','); t2 = s.ty(); b = s.value(t2); s.expect(')')
+                return Const('icmp', t1, (pred, a, b))
+            if v == 'select':
+                s.expect('('); t0 = s.ty(); c = s.value(t0); s.expect(','); t1 = s.ty(); a = s.value(t1); s.expect(','); t2 = s.ty(); b = s.value(t2); s.expect(')')
+                return Const('select', t1, (c, a, b))
             if v == 'blockaddress':
                 s.expect('('); s.next(); s.expect(','); s.next(); s.expect(')')
                 return Const('undef', ty)
